@@ -430,30 +430,35 @@ Proof.
 Qed.
 
 Lemma hex_acc_spec : forall hs acc,
-  Forall (fun c => hexv c <> None) hs ->
-  fold_left (fun a c => a * 16 + match hexv c with Some v => v | None => 0 end) hs acc < 4294967296 ->
+  Forall (fun c => hexv c <> None) hs -> acc <= MAXCP ->
   hex_acc acc hs =
-  Some (fold_left (fun a c => a * 16 + match hexv c with Some v => v | None => 0 end) hs acc).
+  let r := fold_left (fun a c => a * 16 + match hexv c with Some v => v | None => 0 end) hs acc in
+  if r <=? MAXCP then Some r else None.
 Proof.
-  induction hs as [|c hs IH]; intros acc Hall Hlt; [reflexivity|].
-  inversion Hall as [|? ? Hc Hrest]; subst. cbn [hex_acc fold_left] in *.
-  destruct (hexv c) as [v|] eqn:Ev; [|congruence].
-  pose proof (hexv_lt _ _ Ev) as Hv.
-  (* the accumulator never exceeds the final value, which is below 2^32 *)
   assert (Hmono : forall l a, a <= fold_left (fun a c => a * 16 + match hexv c with Some v => v | None => 0 end) l a).
   { induction l as [|x l IHl]; intros a; cbn [fold_left]; [lia|].
     specialize (IHl (a * 16 + match hexv x with Some v => v | None => 0 end)). lia. }
-  pose proof (Hmono hs (acc * 16 + v)) as Hm.
-  unfold w32. rewrite N.mod_small by lia.
-  apply IH; assumption.
+  induction hs as [|c hs IH]; intros acc Hall Hacc; cbn [hex_acc fold_left].
+  - cbv zeta. destruct (acc <=? MAXCP) eqn:E; [reflexivity|]. apply N.leb_gt in E. lia.
+  - inversion Hall as [|? ? Hc Hrest]; subst.
+    destruct (hexv c) as [v|] eqn:Ev; [|congruence]. cbv zeta.
+    destruct (MAXCP <? acc * 16 + v) eqn:Eo.
+    + apply N.ltb_lt in Eo. pose proof (Hmono hs (acc * 16 + v)) as Hm.
+      destruct (fold_left _ hs (acc * 16 + v) <=? MAXCP) eqn:E; [apply N.leb_le in E; lia|reflexivity].
+    + apply N.ltb_ge in Eo. exact (IH (acc * 16 + v) Hrest Eo).
 Qed.
 
-Theorem charref_hex hs : hs <> [] -> Forall (fun c => hexv c <> None) hs -> hexval hs < 4294967296 ->
-  char_ref (35 :: 120 :: hs) = encode_utf8 (hexval hs).
+Theorem charref_hex hs : hs <> [] -> Forall (fun c => hexv c <> None) hs ->
+  char_ref (35 :: 120 :: hs) = if hexval hs <=? MAXCP then encode_utf8 (hexval hs) else None.
 Proof.
-  intros Hne Hall Hlt. unfold char_ref. cbn [N.eqb Pos.eqb orb].
-  rewrite (hex_acc_spec hs 0 Hall Hlt). reflexivity.
+  intros Hne Hall. unfold char_ref. cbn [N.eqb Pos.eqb orb].
+  destruct hs as [|h hs']; [congruence|].
+  rewrite (hex_acc_spec (h :: hs') 0 Hall); [|unfold MAXCP; lia]. cbv zeta. fold (hexval (h :: hs')).
+  now destruct (hexval (h :: hs') <=? MAXCP).
 Qed.
+
+Theorem charref_no_digits : char_ref [35; 120] = None /\ char_ref [35] = None.
+Proof. split; reflexivity. Qed.
 
 (* what a valid code point encodes to *)
 Definition utf8 (cp : N) : list N :=
